@@ -12,6 +12,9 @@ fn main() {
     }
     let code = match args[1].as_str() {
         "check" => match args[2].as_str() {
+            "C01" => vh::c01::check("C01"),
+            "C02" => vh::c02::check(),
+            "C03" => vh::c01::check("C03"),
             "C04" => vh::c04::check(),
             _ => usage(),
         },
@@ -20,6 +23,8 @@ fn main() {
             let v: serde_json::Value = serde_json::from_str(&s).expect("json");
             let r = &v["replay"];
             match r["check"].as_str().unwrap_or("") {
+                "c01" => vh::c01::replay(r),
+                "c02" => vh::c02::replay(r),
                 "c04" => vh::c04::replay(r),
                 _ => usage(),
             }
